@@ -95,6 +95,10 @@ func (s *Sched) fobjOf(p any) *fobj {
 
 // record folds the execution of alternative k of u's pending op into the fingerprint.
 func (s *Sched) record(u *Thread, k int) {
+	if s.NoBranch {
+		// deterministic phase: identical in every execution that reaches it from the same state
+		return
+	}
 	op := u.pending
 	if op == nil || u.opDone {
 		u.h = mix(u.h, 1)
